@@ -212,7 +212,7 @@ def generate(ctx):
 
 # --- SCD ops (key lookup by configured id in token/scdtoken, signature vs. the public key GetKey returned): a further
 # correspondence under the pseudo-property C07SCD, checklib/models/scd.py; theorems Relic.Props.C07.scd_signature_matches_key,
-# scd_getkey_selects_configured, scd_getkey_nil_deref (finding F-SCD-1)
+# scd_getkey_selects_configured, scd_getkey_total (F-SCD-1 repaired: scd_getkey_nil_deref_orig)
 import composite as _composite, scd as _scd
 UNPROVED = list(globals().get("UNPROVED", [])) + _scd.UNPROVED["C07"]
 _gen_c07_scd = generate
